@@ -158,19 +158,20 @@ def runOp (objs : List Cfg) (i : Nat) (ws : List String) : List Cfg × String :=
     (match cur.apply path .len with
      | .error e => (objs, showErr e)
      | .ok _ =>
-       let rec go (c : Cfg) (ks : List Key) : Except String Cfg :=
+       -- the writes made before the failing key stay (the real loop has already performed them)
+       let rec go (c : Cfg) (ks : List Key) : Cfg × Option String :=
          match ks with
-         | [] => .ok c
+         | [] => (c, none)
          | k :: rest => match k with
            | a :: b :: _ => (match c.apply path (.setItem [a] (.leaf (.s [b]))) with
                | .ok (c', _) => go c' rest
-               | .error e => .error (showErr e))
-           | _ => .error "E:IndexError"
+               | .error e => (c, some (showErr e)))
+           | _ => (c, some "E:IndexError")
        match go cur (keys (pd m)) with
-       | .error e => (objs, e)
-       | .ok c1 => (match c1.apply path (.update none (pd kw)) with
+       | (c1, some e) => (setAt objs i c1, e)
+       | (c1, none) => (match c1.apply path (.update none (pd kw)) with
            | .ok (c2, o) => (setAt objs i c2, showOut o)
-           | .error e => (objs, showErr e)))
+           | .error e => (setAt objs i c1, showErr e)))
   | _ =>
     match parseOp ws with
     | none => (objs, "bad-op")
@@ -247,17 +248,19 @@ def runOpC (objs : List CState) (hs : List (Nat × Nat × Handle)) (i : Nat) (ws
     (match applyRoot cur path .len with
      | .error e => (objs, hs, showErr e)
      | .ok _ =>
-       let rec go (c : CState) (ks : List Key) : Except String CState :=
+       let rec go (c : CState) (ks : List Key) : CState × Option String :=
          match ks with
-         | [] => .ok c
+         | [] => (c, none)
          | k :: rest => match k with
            | a :: b :: _ => (match applyRoot c path (.setItem [a] (.leaf (.s [b]))) with
                | .ok (c', _) => go c' rest
-               | .error e => .error (showErr e))
-           | _ => .error "E:IndexError"
+               | .error e => (c, some (showErr e)))
+           | _ => (c, some "E:IndexError")
        match go cur (keys (pd m)) with
-       | .error e => (objs, hs, e)
-       | .ok c1 => finOut (applyRoot c1 path (.update none (pd kw))))
+       | (c1, some e) => (objs.set i c1, hs, e)
+       | (c1, none) => (match applyRoot c1 path (.update none (pd kw)) with
+           | .ok (c2, o) => (objs.set i c2, hs, showOut o)
+           | .error e => (objs.set i c1, hs, showErr e)))
   | "HOP" :: h :: rest =>
     (match hs.find? (fun x => x.1 == h.toNat?.getD 0) with
      | none => (objs, hs, "E:key")
